@@ -373,6 +373,8 @@ where
         let mut more_tokens = VecDeque::new();
 
         loop {
+            #[cfg(feature = "verif")]
+            markup5ever::verif::tick(5);
             let phase = self.phase.get();
 
             #[allow(clippy::unused_unit)]
